@@ -234,12 +234,14 @@ func c15Routes(c *Ctx, rng *rand.Rand) {
 	}
 
 	// ---- Unmarshal side, v1 routes: v1.Unmarshal and the v1 Decoder's setters in every order, repeated
-	for i := 0; i < nSeq; i++ {
-		cs := probes[rng.IntN(2)]
-		name := names[rng.IntN(len(names))]
+	for j := 0; j < nSeq*len(names)*2; j++ {
+		// every call sequence meets every probe name on both probe types
+		i := j / (len(names) * 2)
+		cs := probes[j%2]
+		name := names[(j/2)%len(names)]
 		nm, _ := jsontext.AppendQuote(nil, name)
 		in := []byte(`{` + string(nm) + `:7}`)
-		n := rng.IntN(5)
+		n := 1 + i%5
 		if i < 16 { // all sequences over {D,U} up to length 3 are covered first
 			n = 0
 		}
@@ -257,8 +259,9 @@ func c15Routes(c *Ctx, rng *rand.Rand) {
 				k -= 1 << l
 			}
 		} else {
+			seqRng := rand.New(rand.NewPCG(c.Seed, uint64(i))) // the same calls for all names of sequence i
 			for k := 0; k < n; k++ {
-				ops = append(ops, "DU"[rng.IntN(2)])
+				ops = append(ops, "DU"[seqRng.IntN(2)])
 			}
 		}
 		hasD, hasU := bytes.ContainsRune(ops, 'D'), bytes.ContainsRune(ops, 'U')
